@@ -42,179 +42,187 @@ def run(chk):
     A, B, C = atoms
     from .bounded_c02 import replay_mesh, run_bounded
 
-    # ---------------------------------------------------------------- _find_equations (map loop over faces)
-    fk = chk.function(MODP, "Polyhedron._find_equations")
-
-    def run_fe():
-        o = H.polyhedron(shapes)
-        o._equations = None
-        o._find_equations()
-        return o._equations
-    for p in chk.explore(fk, run_fe, assumptions=facts):
-        E = [to_expr(p.value.inner[j]) for j in range(4)]
-        Nf, P0 = H.face_normal_raw()
-        nrm = sp.sqrt(H.radicand(Nf))
-        for j in range(3):
-            chk.prove_eq(f"equations:normal[{j}]", fk, p.pc, E[j] * nrm, Nf[j], replay=replay_mesh("equations"))
-        chk.prove_eq("equations:offset", fk, p.pc, E[3] * nrm, -H.dot(Nf, P0), replay=replay_mesh("equations"))
-        chk.prove_eq("equations:unit", fk, p.pc, E[0]**2 + E[1]**2 + E[2]**2, 1)
-        for i, nm in enumerate(("v0", "v1", "v2")):
-            chk.prove_eq(f"equations:contains[{nm}]", fk, p.pc, H.dot(E[:3], H.face_vertex(i)) + E[3], 0)
-        axes = p.value.axes
-        chk.record("equations:one_row_per_face", fk, "proved" if axes == (H.F, 4) else "refuted", "shape",
-                   detail=str(axes), model={})
-
-    # ---------------------------------------------------------------- get_face_area / surface_area / volume
-    fk_ga = chk.function(MODP, "Polyhedron.get_face_area")
-    area_f = sp.Function("FaceArea", real=True)      # callee contract value: area of the planar face f
-    passed = []
-
-    class PolyStub:
-        """contract of ConvexPolygon(vertices, planar_tolerance).area as used by get_face_area"""
-        def __init__(self, verts, planar_tolerance=None, **_k):
-            passed.append(verts)
-
-        @property
-        def area(self):
-            return Sym(area_f(H.F.k))
-
-    def run_ga(arg):
-        o = H.polyhedron(shapes)
-        old = polymod.ConvexPolygon
-        polymod.ConvexPolygon = PolyStub
-        passed.clear()
-        try:
-            return o.get_face_area(*arg), list(passed)
-        finally:
-            polymod.ConvexPolygon = old
-    for p in chk.explore(fk_ga, lambda: run_ga(()), assumptions=facts):
-        areas, given = p.value
-        ok = isinstance(areas, SymArr) and areas.axes == (H.F,) and to_expr(areas.inner[()]) == area_f(H.F.k)
-        chk.record("get_face_area:one_area_per_face_in_order", fk_ga, "proved" if ok else "refuted", "map-loop",
-                   model={}, replay=replay_mesh("face_area"))
-        g = given[0] if given else None
-        want = [[H.Vf(H.Fcf(H.F.k, H.LF.k), sp.Integer(j)) for j in range(3)]]
-        ok2 = isinstance(g, SymArr) and g.axes == (H.LF, 3) and \
-            all(sp.expand(to_expr(g.inner[j]) - want[0][j]) == 0 for j in range(3))
-        chk.record("get_face_area:passes_the_faces_vertices", fk_ga, "proved" if ok2 else "refuted", "map-loop",
-                   model={}, replay=replay_mesh("face_area"))
-    fk_s = chk.function(MODP, "Polyhedron.surface_area[get]")
-
-    def run_s():
-        o = H.polyhedron(shapes)
-        o.get_face_area = lambda faces=None: SymArr((H.F,), np.array(Sym(area_f(H.F.k)), dtype=object))
-        return o.surface_area
-    for p in chk.explore(fk_s, run_s, assumptions=facts):
-        chk.record("surface_area:post", fk_s,
-                   "proved" if sigma.is_zero(ex(p.value) - sum_over(H.F, area_f(H.F.k))) else "refuted",
-                   "sigma-normal-form", model={}, replay=replay_mesh("surface_area"))
-
-    fk_v = chk.function(MODP, "Polyhedron.volume[get]")
-    VA = [sp.Function("VA", real=True)(H.F.k, sp.Integer(j)) for j in range(3)]     # vector area of face f
-    P0 = H.face_vertex(0)
-    an = sp.sqrt(H.radicand(VA))
-
-    def run_v():
-        o = H.polyhedron(shapes)
-        # Inv under the defining condition: unit normal = vector area / area, offset = -n.v0
-        eq = np.empty((4,), dtype=object)
-        for j in range(3):
-            eq[j] = wrap(VA[j] / an)
-        eq[3] = wrap(-H.dot(VA, P0) / an)
-        o._equations = SymArr((H.F, 4), eq)
-        o.get_face_area = lambda faces=None: SymArr((H.F,), np.array(wrap(an), dtype=object))
-        return o.volume
-    for p in chk.explore(fk_v, run_v, assumptions=facts + [sp.Gt(H.radicand(VA), 0)]):
-        chk.record("volume:flux_of_r_over_3", fk_v,
-                   "proved" if sigma.is_zero(ex(p.value) - sum_over(H.F, H.dot(VA, P0) / 3)) else "refuted",
-                   "sigma-normal-form", model={}, replay=replay_mesh("volume"))
-    # lemma (mathematics, checked): for a planar face fanned from v0, sum of det(v0,a,b)/6 == v0.VA/3 term by term
-    a = sp.symbols("a0:3", real=True)
-    b = sp.symbols("b0:3", real=True)
-    v0 = sp.symbols("v0:3", real=True)
-    lhs = sp.Matrix([v0, a, b]).det() / 6
-    rhs = H.dot(v0, H.cross([a[i] - v0[i] for i in range(3)], [b[i] - v0[i] for i in range(3)])) / 6
-    chk.prove_eq("volume:fan_lemma", fk_v, [], lhs, rhs)
-
-    # ---------------------------------------------------------------- centroid (reduction loop over triangles)
-    fk_c = chk.function(MODP, "Polyhedron.centroid[get]")
-
-    def run_c():
-        o = H.polyhedron(shapes)
-        return o.centroid
-    for p in chk.explore(fk_c, run_c, assumptions=facts):
-        cen = p.value
-        for i in range(3):
-            num, den = sp.fraction(sigma.cancel_sums(ex(cen[i])))
-            # cen_i = num/den; claim num/den == M[x_i]/M[1]: the two certificates below establish
-            # den == c * M[1] and num == c * M[x_i] for the same constant c
-            m1 = H.solid_moment(1)
-            mx = H.solid_moment(COORD[i])
-            ratio = None
-            for cst in (24, 6, 1, 4, 12, 48, 2, 3, 8):
-                if sigma.is_zero(den - cst * 0) and False:
-                    pass
-            o1 = surface_cert(chk, f"centroid:denominator_is_volume[{'xyz'[i]}]", fk_c, p.pc, den / _lead(den, m1), m1,
-                              H.T, atoms, replay=replay_mesh("centroid"))
-            surface_cert(chk, f"centroid:stokes[{'xyz'[i]}]", fk_c, p.pc, num / _lead(den, m1), mx,
-                         H.T, atoms, replay=replay_mesh("centroid"))
-
-    # ---------------------------------------------------------------- inertia tensor about the centroid
-    fk_i = chk.function(MODP, "Polyhedron._compute_inertia_tensor")
     c = [sp.Symbol(f"c{i}", real=True) for i in range(3)]
     r2 = X**2 + Y**2 + Z**2
 
-    def run_it():
-        o = H.polyhedron(shapes)
-        type(o).centroid.fget      # (the real getter is verified above; here any row-independent centre)
-        o.__class__ = _with_center(o.__class__, c)
-        return o._compute_inertia_tensor()
-    for p in chk.explore(fk_i, run_it, assumptions=facts):
-        it = p.value
-        for i in range(3):
-            for j in range(i, 3):
-                h = (r2 if i == j else 0) - COORD[i] * COORD[j]
-                surface_cert(chk, f"inertia:kallay[{'xyz'[i]}{'xyz'[j]}]", fk_i, p.pc, ex(it[i, j]),
-                             H.solid_moment(h, shift=c), H.T, atoms, replay=replay_mesh("inertia_tensor"))
-                if i != j:
-                    chk.prove_eq(f"inertia:symmetric[{'xyz'[i]}{'xyz'[j]}]", fk_i, p.pc, ex(it[i, j]), ex(it[j, i]))
+    def sec_0():
+        fk = chk.function(MODP, "Polyhedron._find_equations")
 
-    # ---------------------------------------------------------------- inertia_tensor about the origin
-    fk_t = chk.function(MODP, "Polyhedron.inertia_tensor[get]")
-    mom = {}
+        def run_fe():
+            o = H.polyhedron(shapes)
+            o._equations = None
+            o._find_equations()
+            return o._equations
+        for p in chk.explore(fk, run_fe, assumptions=facts):
+            E = [to_expr(p.value.inner[j]) for j in range(4)]
+            Nf, P0 = H.face_normal_raw()
+            nrm = sp.sqrt(H.radicand(Nf))
+            for j in range(3):
+                chk.prove_eq(f"equations:normal[{j}]", fk, p.pc, E[j] * nrm, Nf[j], replay=replay_mesh("equations"))
+            chk.prove_eq("equations:offset", fk, p.pc, E[3] * nrm, -H.dot(Nf, P0), replay=replay_mesh("equations"))
+            chk.prove_eq("equations:unit", fk, p.pc, E[0]**2 + E[1]**2 + E[2]**2, 1)
+            for i, nm in enumerate(("v0", "v1", "v2")):
+                chk.prove_eq(f"equations:contains[{nm}]", fk, p.pc, H.dot(E[:3], H.face_vertex(i)) + E[3], 0)
+            axes = p.value.axes
+            chk.record("equations:one_row_per_face", fk, "proved" if axes == (H.F, 4) else "refuted", "shape",
+                       detail=str(axes), model={})
+    chk.section("find_equations_map_loop_over_faces", "coxeter.shapes.polyhedron::Polyhedron", sec_0)
 
-    def msym(pw):
-        return mom.setdefault(pw, sp.Symbol("m_%d%d%d" % pw, real=True))
+    def sec_1():
+        fk_ga = chk.function(MODP, "Polyhedron.get_face_area")
+        area_f = sp.Function("FaceArea", real=True)      # callee contract value: area of the planar face f
+        passed = []
 
-    def abstract(h):
-        poly = sp.Poly(sp.expand(h), X, Y, Z)
-        return sum(coef * msym(tuple(mon)) for mon, coef in poly.terms())
-    m0 = msym((0, 0, 0))
-    cen = [msym(tuple(1 if k == i else 0 for k in range(3))) / m0 for i in range(3)]
+        class PolyStub:
+            """contract of ConvexPolygon(vertices, planar_tolerance).area as used by get_face_area"""
+            def __init__(self, verts, planar_tolerance=None, **_k):
+                passed.append(verts)
 
-    def run_full():
-        o = H.polyhedron(shapes)
-        o.__class__ = _with_center(o.__class__, cen, volume=m0)
+            @property
+            def area(self):
+                return Sym(area_f(H.F.k))
 
-        def stub(centered=True):
-            out = np.empty((3, 3), dtype=object)
+        def run_ga(arg):
+            o = H.polyhedron(shapes)
+            old = polymod.ConvexPolygon
+            polymod.ConvexPolygon = PolyStub
+            passed.clear()
+            try:
+                return o.get_face_area(*arg), list(passed)
+            finally:
+                polymod.ConvexPolygon = old
+        for p in chk.explore(fk_ga, lambda: run_ga(()), assumptions=facts):
+            areas, given = p.value
+            ok = isinstance(areas, SymArr) and areas.axes == (H.F,) and to_expr(areas.inner[()]) == area_f(H.F.k)
+            chk.record("get_face_area:one_area_per_face_in_order", fk_ga, "proved" if ok else "refuted", "map-loop",
+                       model={}, replay=replay_mesh("face_area"))
+            g = given[0] if given else None
+            want = [[H.Vf(H.Fcf(H.F.k, H.LF.k), sp.Integer(j)) for j in range(3)]]
+            ok2 = isinstance(g, SymArr) and g.axes == (H.LF, 3) and \
+                all(sp.expand(to_expr(g.inner[j]) - want[0][j]) == 0 for j in range(3))
+            chk.record("get_face_area:passes_the_faces_vertices", fk_ga, "proved" if ok2 else "refuted", "map-loop",
+                       model={}, replay=replay_mesh("face_area"))
+        fk_s = chk.function(MODP, "Polyhedron.surface_area[get]")
+
+        def run_s():
+            o = H.polyhedron(shapes)
+            o.get_face_area = lambda faces=None: SymArr((H.F,), np.array(Sym(area_f(H.F.k)), dtype=object))
+            return o.surface_area
+        for p in chk.explore(fk_s, run_s, assumptions=facts):
+            chk.record("surface_area:post", fk_s,
+                       "proved" if sigma.is_zero(ex(p.value) - sum_over(H.F, area_f(H.F.k))) else "refuted",
+                       "sigma-normal-form", model={}, replay=replay_mesh("surface_area"))
+
+        fk_v = chk.function(MODP, "Polyhedron.volume[get]")
+        VA = [sp.Function("VA", real=True)(H.F.k, sp.Integer(j)) for j in range(3)]     # vector area of face f
+        P0 = H.face_vertex(0)
+        an = sp.sqrt(H.radicand(VA))
+
+        def run_v():
+            o = H.polyhedron(shapes)
+            # Inv under the defining condition: unit normal = vector area / area, offset = -n.v0
+            eq = np.empty((4,), dtype=object)
+            for j in range(3):
+                eq[j] = wrap(VA[j] / an)
+            eq[3] = wrap(-H.dot(VA, P0) / an)
+            o._equations = SymArr((H.F, 4), eq)
+            o.get_face_area = lambda faces=None: SymArr((H.F,), np.array(wrap(an), dtype=object))
+            return o.volume
+        for p in chk.explore(fk_v, run_v, assumptions=facts + [sp.Gt(H.radicand(VA), 0)]):
+            chk.record("volume:flux_of_r_over_3", fk_v,
+                       "proved" if sigma.is_zero(ex(p.value) - sum_over(H.F, H.dot(VA, P0) / 3)) else "refuted",
+                       "sigma-normal-form", model={}, replay=replay_mesh("volume"))
+        # lemma (mathematics, checked): for a planar face fanned from v0, sum of det(v0,a,b)/6 == v0.VA/3 term by term
+        a = sp.symbols("a0:3", real=True)
+        b = sp.symbols("b0:3", real=True)
+        v0 = sp.symbols("v0:3", real=True)
+        lhs = sp.Matrix([v0, a, b]).det() / 6
+        rhs = H.dot(v0, H.cross([a[i] - v0[i] for i in range(3)], [b[i] - v0[i] for i in range(3)])) / 6
+        chk.prove_eq("volume:fan_lemma", fk_v, [], lhs, rhs)
+    chk.section("get_face_area_surface_area_volume", "coxeter.shapes.polyhedron::Polyhedron", sec_1)
+
+    def sec_2():
+        fk_c = chk.function(MODP, "Polyhedron.centroid[get]")
+
+        def run_c():
+            o = H.polyhedron(shapes)
+            return o.centroid
+        for p in chk.explore(fk_c, run_c, assumptions=facts):
+            cen = p.value
+            for i in range(3):
+                num, den = sp.fraction(sigma.cancel_sums(ex(cen[i])))
+                # cen_i = num/den; claim num/den == M[x_i]/M[1]: the two certificates below establish
+                # den == c * M[1] and num == c * M[x_i] for the same constant c
+                m1 = H.solid_moment(1)
+                mx = H.solid_moment(COORD[i])
+                ratio = None
+                for cst in (24, 6, 1, 4, 12, 48, 2, 3, 8):
+                    if sigma.is_zero(den - cst * 0) and False:
+                        pass
+                o1 = surface_cert(chk, f"centroid:denominator_is_volume[{'xyz'[i]}]", fk_c, p.pc, den / _lead(den, m1), m1,
+                                  H.T, atoms, replay=replay_mesh("centroid"))
+                surface_cert(chk, f"centroid:stokes[{'xyz'[i]}]", fk_c, p.pc, num / _lead(den, m1), mx,
+                             H.T, atoms, replay=replay_mesh("centroid"))
+    chk.section("centroid_reduction_loop_over_triangles", "coxeter.shapes.polyhedron::Polyhedron", sec_2)
+
+    def sec_3():
+        fk_i = chk.function(MODP, "Polyhedron._compute_inertia_tensor")
+
+        def run_it():
+            o = H.polyhedron(shapes)
+            type(o).centroid.fget      # (the real getter is verified above; here any row-independent centre)
+            o.__class__ = _with_center(o.__class__, c)
+            return o._compute_inertia_tensor()
+        for p in chk.explore(fk_i, run_it, assumptions=facts):
+            it = p.value
+            for i in range(3):
+                for j in range(i, 3):
+                    h = (r2 if i == j else 0) - COORD[i] * COORD[j]
+                    surface_cert(chk, f"inertia:kallay[{'xyz'[i]}{'xyz'[j]}]", fk_i, p.pc, ex(it[i, j]),
+                                 H.solid_moment(h, shift=c), H.T, atoms, replay=replay_mesh("inertia_tensor"))
+                    if i != j:
+                        chk.prove_eq(f"inertia:symmetric[{'xyz'[i]}{'xyz'[j]}]", fk_i, p.pc, ex(it[i, j]), ex(it[j, i]))
+    chk.section("inertia_tensor_about_the_centroid", "coxeter.shapes.polyhedron::Polyhedron", sec_3)
+
+    def sec_4():
+        fk_t = chk.function(MODP, "Polyhedron.inertia_tensor[get]")
+        mom = {}
+
+        def msym(pw):
+            return mom.setdefault(pw, sp.Symbol("m_%d%d%d" % pw, real=True))
+
+        def abstract(h):
+            poly = sp.Poly(sp.expand(h), X, Y, Z)
+            return sum(coef * msym(tuple(mon)) for mon, coef in poly.terms())
+        m0 = msym((0, 0, 0))
+        cen = [msym(tuple(1 if k == i else 0 for k in range(3))) / m0 for i in range(3)]
+
+        def run_full():
+            o = H.polyhedron(shapes)
+            o.__class__ = _with_center(o.__class__, cen, volume=m0)
+
+            def stub(centered=True):
+                out = np.empty((3, 3), dtype=object)
+                for i in range(3):
+                    for j in range(3):
+                        h = (r2 if i == j else 0) - COORD[i] * COORD[j]
+                        hs = h.subs({X: X - cen[0], Y: Y - cen[1], Z: Z - cen[2]}, simultaneous=True)
+                        out[i, j] = wrap(abstract(hs))
+                return out
+            o._compute_inertia_tensor = stub
+            # callee contracts of everything else a (re-written) getter might consult
+            o.get_face_area = lambda faces=None: SymArr((H.F,), np.array(Sym(sp.Function("FaceArea", real=True)(H.F.k)), dtype=object))
+            return o.inertia_tensor
+        for p in chk.explore(fk_t, run_full, assumptions=[sp.Gt(m0, 0)]):
+            out = p.value
             for i in range(3):
                 for j in range(3):
                     h = (r2 if i == j else 0) - COORD[i] * COORD[j]
-                    hs = h.subs({X: X - cen[0], Y: Y - cen[1], Z: Z - cen[2]}, simultaneous=True)
-                    out[i, j] = wrap(abstract(hs))
-            return out
-        o._compute_inertia_tensor = stub
-        return o.inertia_tensor
-    for p in chk.explore(fk_t, run_full, assumptions=[sp.Gt(m0, 0)]):
-        out = p.value
-        for i in range(3):
-            for j in range(3):
-                h = (r2 if i == j else 0) - COORD[i] * COORD[j]
-                chk.prove_eq(f"inertia_tensor:post[{i}{j}]", fk_t, p.pc, ex(out[i, j]), abstract(h),
-                             replay=replay_mesh("inertia_tensor"))
+                    chk.prove_eq(f"inertia_tensor:post[{i}{j}]", fk_t, p.pc, ex(out[i, j]), abstract(h),
+                                 replay=replay_mesh("inertia_tensor"))
+    chk.section("inertia_tensor_about_the_origin", "coxeter.shapes.polyhedron::Polyhedron", sec_4)
 
-    chk.reachable("Inv_Polyhedron facts", fk_c, facts)
+    chk.reachable("Inv_Polyhedron facts", "coxeter.shapes.polyhedron::Polyhedron.centroid[get]", facts)
     run_bounded(chk)
 
 
